@@ -164,6 +164,19 @@ pub fn plan_c09(thorough: bool) -> Plan {
             }
         }
     }
+    // very large prior values (5 MiB and 20 MiB: thousands of overflow pages, a rollback record of
+    // the same size): blind overwrite / read-then-delete, then rollbacks on the same handle and after
+    // a reopen (the record is decoded again from the log)
+    for size in [5_300_000u64, 20_971_520] {
+        let cfg = rb_cfg(3, 0);
+        for tail in [vec![json!({"rb": 1})], vec![json!({"reopen": {}}), json!({"rb": 1})], vec![json!({"reopen": {"cold": true}}), json!({"rb": 2})], vec![json!({"rb": 1}), json!({"reopen": {}}), json!({"rb": 1})]] {
+            for second in [c(vec![w(0, 1)]), c(vec![json!([0, "rd"])])] {
+                let mut ops = vec![c(vec![w(0, size), w(1, 3)]), second.clone()];
+                ops.extend(tail.iter().cloned());
+                cases.push(case("empty", vec!["U4"], &cfg, "noproof", ops, 4, true));
+            }
+        }
+    }
     // explicit overlay chains: an ancestor deletes / rewrites a key that exists on disk and a
     // descendant writes it blindly or after reading; both committed; rolled back step by step
     for (a, b) in [
@@ -192,7 +205,7 @@ pub fn plan_c09(thorough: bool) -> Plan {
     sort_by_bound(&mut cases);
     let mut p = Plan::new(
         cases,
-        "histx: every sequence of ≤L symbols over {4 fixed commit batches (1 B, 1333 B, 8 KiB values, deletes), the empty commit, commit of an overlay, rollback(1), rollback(2), rollback(3), reopen} for max_rollback_log_len ∈ {0,1,2,3} × rollback segment size ∈ {4 KiB (one record per segment), 8 KiB, 64 MiB}, plus a reopen with a different log length at every position; plus every sequence of ≤4 (thorough 5) symbols over {write 70000 B + 61381 B values (18 and 16 overflow pages), blind overwrite, blind delete, rewrite large, rollback(1), rollback(2), COLD reopen = a reopen after which nothing is read back} that contains a cold reopen; plus 'quiet' copies (no reads between the operations, one audit at the end) of histories that reopen; plus explicit two-overlay chains in which the ancestor deletes/rewrites an on-disk key and the descendant writes it (blind and read-then-write, empty values, overflow values), committed in order and rolled back one by one / at once / after a reopen; plus every sequence of ≤4 symbols over {two writing commits, an EMPTY overlay committed, a READ-ONLY overlay committed, a read-only overlay on a writing overlay (both committed), rollback(1), rollback(2)} — an overlay that writes nothing is still one commit for rollback; oracle: rollback(n) with n ≤ retained commits succeeds and values/root/seqn equal the model's state n commits back; a request beyond what exists fails, changes nothing and does not poison; between the two the store may either refuse or be exactly right (it legitimately retains more than configured across a reopen); every history ends with a reopen and audit (the store never becomes unopenable). bound = sequence length.",
+        "histx: every sequence of ≤L symbols over {4 fixed commit batches (1 B, 1333 B, 8 KiB values, deletes), the empty commit, commit of an overlay, rollback(1), rollback(2), rollback(3), reopen} for max_rollback_log_len ∈ {0,1,2,3} × rollback segment size ∈ {4 KiB (one record per segment), 8 KiB, 64 MiB}, plus a reopen with a different log length at every position; plus every sequence of ≤4 (thorough 5) symbols over {write 70000 B + 61381 B values (18 and 16 overflow pages), blind overwrite, blind delete, rewrite large, rollback(1), rollback(2), COLD reopen = a reopen after which nothing is read back} that contains a cold reopen; plus 5 MiB and 20 MiB prior values (blind overwrite / read-then-delete, rollbacks on the same handle and after warm and cold reopens: the record is decoded again from the log); plus 'quiet' copies (no reads between the operations, one audit at the end) of histories that reopen; plus explicit two-overlay chains in which the ancestor deletes/rewrites an on-disk key and the descendant writes it (blind and read-then-write, empty values, overflow values), committed in order and rolled back one by one / at once / after a reopen; plus every sequence of ≤4 symbols over {two writing commits, an EMPTY overlay committed, a READ-ONLY overlay committed, a read-only overlay on a writing overlay (both committed), rollback(1), rollback(2)} — an overlay that writes nothing is still one commit for rollback; oracle: rollback(n) with n ≤ retained commits succeeds and values/root/seqn equal the model's state n commits back; a request beyond what exists fails, changes nothing and does not poison; between the two the store may either refuse or be exactly right (it legitimately retains more than configured across a reopen); every history ends with a reopen and audit (the store never becomes unopenable). bound = sequence length.",
     );
     p.budget_s = if thorough { 1700 } else { 55 };
     p
@@ -1175,6 +1188,19 @@ pub fn plan_c06(thorough: bool) -> Plan {
                         cases.push(n);
                     }
                 }
+                // the same witnessed batches right after a COLD reopen (nothing read back: the stored
+                // merkle pages below the root are fetched while the session seeks — keys sharing a
+                // cold page join one in-flight load)
+                if !warm && (seed == "cl12x20" || seed == "bulk") {
+                    for cse in cs.clone().iter() {
+                        let mut n = cse.clone();
+                        let mut o = vec![json!({"reopen": {"cold": true}})];
+                        o.extend(cse["ops"].as_array().unwrap().iter().cloned());
+                        n["ops"] = Value::Array(o);
+                        n["quiet"] = json!(true);
+                        cases.push(n);
+                    }
+                }
                 cases.extend(cs);
             }
         }
@@ -1214,7 +1240,7 @@ pub fn plan_c06(thorough: bool) -> Plan {
     sort_by_bound(&mut cases);
     let mut p = Plan::new(
         cases,
-        "histx: for prior states {3 colliding keys, leaf seed, 20-key merkle cluster, 1500 random keys} × commit workers {1,2,3} × warm-up {off, on: every key of the batch / every second key warmed up, with a 1 ms settle so that the warm-up worker has finished its seeks and the update re-uses them}: every sorted batch with ≤B non-trivial per-key actions {read, write, read-then-write, delete, read-then-delete} over a 6–7 key universe of present and absent keys (several keys on one terminal, keys in different root-child ranges); plus, with 3 and 5 (thorough 6, 7) workers, every batch of ≤3 actions over 10 keys placed on both sides of the workers' range boundaries in a two-leaf trie (one terminal spans several workers' ranges); plus the leaf / cluster batches as a witnessed session layered on an uncommitted overlay that rewrote and deleted universe keys; plus every batch of ≤3 {read, write, delete} over ten present keys that share one depth-1 page at mixed depths (DEEP); plus witnessed batches of 650–1300 warmed-up keys (reads, writes, deletes) over 1500 random keys with 1 and 2 workers (the update consumes the finished warm-up seeks through its bounded look-ahead queue); the session runs with witnessing on; oracle: every witnessed path verifies against the previous root (= reference root), every witnessed read attests exactly the value hash the session observed and is confirmed by its path, every written key is covered with the right value hash and in scope of its path, and proof::verify_update over the witnessed writes = FinishedSession::root = reference root of the updated set.",
+        "histx: for prior states {3 colliding keys, leaf seed, 20-key merkle cluster, 1500 random keys} × commit workers {1,2,3} × warm-up {off, on: every key of the batch / every second key warmed up, with a 1 ms settle so that the warm-up worker has finished its seeks and the update re-uses them}: every sorted batch with ≤B non-trivial per-key actions {read, write, read-then-write, delete, read-then-delete} over a 6–7 key universe of present and absent keys (several keys on one terminal, keys in different root-child ranges); plus, with 3 and 5 (thorough 6, 7) workers, every batch of ≤3 actions over 10 keys placed on both sides of the workers' range boundaries in a two-leaf trie (one terminal spans several workers' ranges); plus the cluster / 1500-key batches right after a cold reopen (the stored merkle pages are fetched while the session seeks; keys sharing a cold page join one in-flight load); plus the leaf / cluster batches as a witnessed session layered on an uncommitted overlay that rewrote and deleted universe keys; plus every batch of ≤3 {read, write, delete} over ten present keys that share one depth-1 page at mixed depths (DEEP); plus witnessed batches of 650–1300 warmed-up keys (reads, writes, deletes) over 1500 random keys with 1 and 2 workers (the update consumes the finished warm-up seeks through its bounded look-ahead queue); the session runs with witnessing on; oracle: every witnessed path verifies against the previous root (= reference root), every witnessed read attests exactly the value hash the session observed and is confirmed by its path, every written key is covered with the right value hash and in scope of its path, and proof::verify_update over the witnessed writes = FinishedSession::root = reference root of the updated set.",
     );
     p.budget_s = if thorough { 1700 } else { 55 };
     p
